@@ -270,6 +270,9 @@ TARGETS = [
     ("plain > lam > x", "type-error"),
     ("plain > len > x", "type-error"),
     ("plain(y) > nosrc > x", "type-error"),
+    # ... also when the function that cannot be instrumented comes first
+    ("len > plain > x", "type-error"),
+    ("lam > plain > y", "type-error"),
     ("NoInit > x", "type-error"),
     ("n > x", "type-error"),
     ("lst.append > x", "type-error"),
@@ -292,6 +295,12 @@ def check_targets(part):
     for sel, exp in TARGETS:
         ns = world.make_module(TARGET_SRC)
         plain_code = ns["plain"].__code__
+        try:
+            # `plain` has been probed before (it has its bookkeeping, at zero)
+            with probing("plain > y", env=ns):
+                pass
+        except BaseException:
+            pass
         part["cases"] += 1
         part["evaluations"] += 1
         part["steps"] += 1
